@@ -1,4 +1,4 @@
 SPECIFICATION Spec
-CONSTANTS LossPerHit = 4  ChargeFree = TRUE  OpenFace = "max_y"  Transits = 4
+CONSTANTS LossPerHit = 4  ChargeFree = TRUE  OpenFace = "max_y"  Transits = 4  StretchApplied = TRUE
 INVARIANT QuietAbsorbed
 CHECK_DEADLOCK FALSE
